@@ -1,8 +1,8 @@
 #!/bin/bash
 # ./seedtest.sh <prop> <letter> [check props...]  -- confirm a seeded change (demo fails with it, passes without, suite unchanged) and run checks on it
 P=$1; L=$2; shift 2; CHECKS=${@:-$P}
-SRC=/tmp/seed_out/$P
-[ -d /verif/seeded/$P-$L ] && SRC=/verif/seeded/$P-$L
+SRC=${SEEDSRC:-/tmp/seed_out}/$P
+[ -z "$SEEDSRC" ] && [ -d /verif/seeded/$P-$L ] && SRC=/verif/seeded/$P-$L
 PATCH=$SRC/patch_$L.diff; DEMO=$SRC/demo_$L.py
 [ -f $PATCH ] || PATCH=$SRC/patch.diff; [ -f $DEMO ] || DEMO=$SRC/demo.py
 D=$(mktemp -d /tmp/sdXXXX); rmdir $D
